@@ -1,0 +1,151 @@
+//go:build verif
+
+// Package verifh holds ghost client programs for /verif/govc (build tag verif only; never
+// part of a normal build). Each function composes real library calls; its contract is a
+// property-level lemma that the verifier proves from the callees' CONTRACTS alone, so the
+// lemma cannot drift from what the encoder and decoder contracts actually say.
+package verifh
+
+import (
+	"github.com/basecomplextech/baselibrary/bin"
+	"github.com/basecomplextech/baselibrary/buffer"
+	"github.com/basecomplextech/spec/internal/decode"
+	"github.com/basecomplextech/spec/internal/encode"
+	"github.com/basecomplextech/spec/internal/format"
+)
+
+func RoundTripBool(b buffer.Buffer, v bool) (bool, int, int, error) {
+	n, _ := encode.EncodeBool(b, v)
+	r, m, err := decode.DecodeBool(b.Bytes())
+	return r, n, m, err
+}
+
+func RoundTripByte(b buffer.Buffer, v byte) (byte, int, int, error) {
+	n, _ := encode.EncodeByte(b, v)
+	r, m, err := decode.DecodeByte(b.Bytes())
+	return r, n, m, err
+}
+
+func RoundTripInt16(b buffer.Buffer, v int16) (int16, int, int, error) {
+	n, _ := encode.EncodeInt16(b, v)
+	r, m, err := decode.DecodeInt16(b.Bytes())
+	return r, n, m, err
+}
+
+func RoundTripInt32(b buffer.Buffer, v int32) (int32, int, int, error) {
+	n, _ := encode.EncodeInt32(b, v)
+	r, m, err := decode.DecodeInt32(b.Bytes())
+	return r, n, m, err
+}
+
+func RoundTripInt64(b buffer.Buffer, v int64) (int64, int, int, error) {
+	n, _ := encode.EncodeInt64(b, v)
+	r, m, err := decode.DecodeInt64(b.Bytes())
+	return r, n, m, err
+}
+
+func RoundTripUint16(b buffer.Buffer, v uint16) (uint16, int, int, error) {
+	n, _ := encode.EncodeUint16(b, v)
+	r, m, err := decode.DecodeUint16(b.Bytes())
+	return r, n, m, err
+}
+
+func RoundTripUint32(b buffer.Buffer, v uint32) (uint32, int, int, error) {
+	n, _ := encode.EncodeUint32(b, v)
+	r, m, err := decode.DecodeUint32(b.Bytes())
+	return r, n, m, err
+}
+
+func RoundTripUint64(b buffer.Buffer, v uint64) (uint64, int, int, error) {
+	n, _ := encode.EncodeUint64(b, v)
+	r, m, err := decode.DecodeUint64(b.Bytes())
+	return r, n, m, err
+}
+
+// width changes inside a family: a stored value read through another width
+
+func WidenInt16To64(b buffer.Buffer, v int16) (int64, int, int, error) {
+	n, _ := encode.EncodeInt16(b, v)
+	r, m, err := decode.DecodeInt64(b.Bytes())
+	return r, n, m, err
+}
+
+func NarrowInt64To32(b buffer.Buffer, v int64) (int32, int, int, error) {
+	n, _ := encode.EncodeInt64(b, v)
+	r, m, err := decode.DecodeInt32(b.Bytes())
+	return r, n, m, err
+}
+
+func NarrowInt64To16(b buffer.Buffer, v int64) (int16, int, int, error) {
+	n, _ := encode.EncodeInt64(b, v)
+	r, m, err := decode.DecodeInt16(b.Bytes())
+	return r, n, m, err
+}
+
+func NarrowInt32To16(b buffer.Buffer, v int32) (int16, int, int, error) {
+	n, _ := encode.EncodeInt32(b, v)
+	r, m, err := decode.DecodeInt16(b.Bytes())
+	return r, n, m, err
+}
+
+func WidenUint16To64(b buffer.Buffer, v uint16) (uint64, int, int, error) {
+	n, _ := encode.EncodeUint16(b, v)
+	r, m, err := decode.DecodeUint64(b.Bytes())
+	return r, n, m, err
+}
+
+func NarrowUint64To32(b buffer.Buffer, v uint64) (uint32, int, int, error) {
+	n, _ := encode.EncodeUint64(b, v)
+	r, m, err := decode.DecodeUint32(b.Bytes())
+	return r, n, m, err
+}
+
+func NarrowUint64To16(b buffer.Buffer, v uint64) (uint16, int, int, error) {
+	n, _ := encode.EncodeUint64(b, v)
+	r, m, err := decode.DecodeUint16(b.Bytes())
+	return r, n, m, err
+}
+
+func NarrowUint32To16(b buffer.Buffer, v uint32) (uint16, int, int, error) {
+	n, _ := encode.EncodeUint32(b, v)
+	r, m, err := decode.DecodeUint16(b.Bytes())
+	return r, n, m, err
+}
+
+// fixed binaries, bytes, strings
+
+func RoundTripBin64(b buffer.Buffer, v bin.Bin64) (bin.Bin64, int, int, error) {
+	n, _ := encode.EncodeBin64(b, v)
+	r, m, err := decode.DecodeBin64(b.Bytes())
+	return r, n, m, err
+}
+
+func RoundTripBin128(b buffer.Buffer, v bin.Bin128) (bin.Bin128, int, int, error) {
+	n, _ := encode.EncodeBin128(b, v)
+	r, m, err := decode.DecodeBin128(b.Bytes())
+	return r, n, m, err
+}
+
+func RoundTripBin256(b buffer.Buffer, v bin.Bin256) (bin.Bin256, int, int, error) {
+	n, _ := encode.EncodeBin256(b, v)
+	r, m, err := decode.DecodeBin256(b.Bytes())
+	return r, n, m, err
+}
+
+func RoundTripBytes(b buffer.Buffer, v []byte) (format.Bytes, int, int, error) {
+	n, err := encode.EncodeBytes(b, v)
+	if err != nil {
+		return nil, 0, 0, err
+	}
+	r, m, err := decode.DecodeBytes(b.Bytes())
+	return r, n, m, err
+}
+
+func RoundTripString(b buffer.Buffer, v string) (format.String, int, int, error) {
+	n, err := encode.EncodeString(b, v)
+	if err != nil {
+		return "", 0, 0, err
+	}
+	r, m, err := decode.DecodeString(b.Bytes())
+	return r, n, m, err
+}
